@@ -104,7 +104,11 @@ def oracle(f, ops, rng):
     try:
         reg = est.predict_regression(Q1, target_channels=[tgt])
         cpred = est.predict(Q1, skip_channels=[tgt])
-        cen = est.get_channel_centers(tgt if tgt >= 0 else n + tgt)
+        # the reference is the target module's own centres, not FusionART's accessor
+        cen = est.modules[tgt if tgt >= 0 else n + tgt].get_cluster_centers()
+        acc = est.get_channel_centers(tgt if tgt >= 0 else n + tgt)
+        if len(acc) != len(cen) or not all(np.array_equal(np.asarray(a), np.asarray(b)) for a, b in zip(acc, cen)):
+            fails.append(rep("regression-centre", "get_channel_centers is not the list of the target module's current cluster centres"))
         if not all(np.array_equal(np.asarray(reg[j]), np.asarray(cen[int(cpred[j])])) for j in range(len(Q1))):
             fails.append(rep("regression-centre", "predict_regression is not the target-channel centre of the predicted category"))
     except Exception as e:
@@ -116,7 +120,7 @@ def oracle(f, ops, rng):
             cpred = est.predict(Q1, skip_channels=list(skip_given))
             ok = isinstance(regs, list) and len(regs) == len(skip_given)
             for jt, tg in enumerate(skip_given):
-                cen = est.get_channel_centers(tg if tg >= 0 else n + tg)
+                cen = est.modules[tg if tg >= 0 else n + tg].get_cluster_centers()
                 ok = ok and all(np.array_equal(np.asarray(regs[jt][j]), np.asarray(cen[int(cpred[j])])) for j in range(len(Q1)))
             if not ok:
                 fails.append(rep("regression-centre", f"predict_regression(target_channels={skip_given}) is not the list of target-channel centres of the predicted category"))
@@ -222,6 +226,44 @@ def art1_target_oracle(rng):
     return None
 
 
+def regression_between_batches(rng):
+    """'for all trained FusionART models': the model is queried, trained further (batches that refine existing categories
+    without creating new ones are the interesting ones), and queried again - predict_regression must return the CURRENT
+    target-channel centre of the chosen category every time"""
+    import artlib
+    n = rng.choice([2, 3])
+    ds = [rng.choice([1, 2]) for _ in range(n)]
+    beta = rng.choice([0.5, 0.5, 1.0])
+    mods = [artlib.FuzzyART(rng.choice([0.0, 0.25, 0.5]), 1 / 1024, beta) for _ in range(n)]
+    for m, d in zip(mods, ds):
+        m.d_min_, m.d_max_ = np.zeros(d), np.ones(d)
+    g = {2: [0.5, 0.5], 3: [0.5, 0.25, 0.25]}[n]
+    est = artlib.FusionART(mods, g, [2 * d for d in ds])
+    rows = rng.randrange(6, 14)
+    raw = [np.array([[rng.randrange(0, 9) / 8 for _ in range(d)] for _ in range(rows)]) for d in ds]
+    X = np.hstack([np.hstack([r, 1 - r]) for r in raw])
+    tgt = rng.randrange(n)
+    given = tgt - n if rng.random() < 0.5 else tgt
+    rep_ = {"X": X.tolist(), "gammas": g, "channel_dims": [2 * d for d in ds], "beta": beta, "target_channel": given}
+    try:
+        h = max(2, rows // 2)
+        est.fit(X[:h])
+        for step in range(3):
+            Q = X[[rng.randrange(rows) for _ in range(4)]]
+            reg = est.predict_regression(Q, target_channels=[given])
+            cp = est.predict(Q, skip_channels=[given])
+            cen = est.modules[tgt].get_cluster_centers()
+            if not all(np.array_equal(np.asarray(reg[j]), np.asarray(cen[int(cp[j])])) for j in range(len(Q))):
+                return {"signature": "FusionART/regression-centre", "text": f"after {step} further batch(es): predict_regression returns {np.asarray(reg).tolist()}, the current target-channel centres of the chosen categories are "
+                        f"{[np.asarray(cen[int(c)]).tolist() for c in cp]}", "replay": dict(rep_, batches_after_the_first_query=step)}
+            # more training on rows near the ones already seen
+            B = X[[rng.randrange(rows) for _ in range(rng.randrange(2, 6))]]
+            est.partial_fit(B)
+    except Exception as e:
+        return {"signature": "FusionART/regression-raises", "text": f"{type(e).__name__}: {str(e)[:80]}", "replay": rep_}
+    return None
+
+
 def prepare_restore(rng):
     """prepare_data / restore_data on raw multi-channel data (non-constant columns)"""
     import artlib
@@ -308,7 +350,7 @@ def main():
         r = prepare_restore(rng)
         if r:
             fails.append(r)
-        for g_ in (rounding_oracle, art1_target_oracle):
+        for g_ in (rounding_oracle, art1_target_oracle, regression_between_batches):
             r = g_(rng)
             if r:
                 fails.append(r)
